@@ -11,9 +11,12 @@
 #include <algorithm>
 #include <cfloat>
 #include <cmath>
+#include <cstdlib>
+#include <limits>
 #include <map>
 #include <set>
 #include <string>
+#include <type_traits>
 #include <vector>
 
 using namespace bpp;
@@ -305,6 +308,204 @@ void caseElementwise(vrt::Case& c)
   case 0: case 1: elementwiseFor<int>(c); break;
   case 2: case 3: elementwiseFor<double>(c); break;
   default: vrt::describe("elementwise:functions", "log/exp/log10/cos/sin/pow/fact on random vectors"); elementwiseRealFunctions(c);
+  }
+}
+
+// ==================================================================== group: mixedscalar
+// The vector/scalar operators are templates <class T, class C>: the scalar need not have the element type
+// (vector<int> * 0.5, vector<double> * 2, vector<float> / 3.0, ...).  Definition used as the reference:
+// element and scalar are combined in their common arithmetic type (the usual arithmetic conversions of the
+// expression `v[i] op c`), and the value is then stored as an element.  For * and / every equivalent form
+// (v op c, c op v, v op= c) has to give that value, and the forms have to agree with each other.
+// For + and - the library documents nothing and its two forms differ by design (v + c converts the scalar
+// to the element type first, v += c adds in the common type): where the scalar is representable in the
+// element type both readings coincide and that value is required; elsewhere either reading is accepted.
+// Inputs are kept small (|v| <= 1e6, 1/16 <= |c| <= 41) so that no conversion is out of range; operations
+// whose value would not fit the element type (unsigned elements going negative) are not executed.
+template<class T> struct MN;
+template<> struct MN<int> { static const char* n() { return "int"; } };
+template<> struct MN<unsigned int> { static const char* n() { return "uint"; } };
+template<> struct MN<long> { static const char* n() { return "long"; } };
+template<> struct MN<unsigned long> { static const char* n() { return "ulong"; } };
+template<> struct MN<double> { static const char* n() { return "double"; } };
+template<> struct MN<float> { static const char* n() { return "float"; } };
+
+template<class T> string mvs(const vector<T>& v)
+{
+  string s = "{";
+  for (size_t i = 0; i < v.size(); ++i) { if (i) s += ","; s += str(v[i]); }
+  return s + "}";
+}
+
+template<class T> vector<T> genMixedVec(vrt::Rng& r, size_t n, string& sname)
+{
+  vector<T> out(n);
+  if (is_floating_point<T>::value)
+  {
+    int st;
+    VD v = Gen<double>::make(r, n, st, sname);
+    for (size_t i = 0; i < n; ++i) out[i] = static_cast<T>(v[i]);
+  }
+  else
+  {
+    int st = static_cast<int>(r.below(N_INT_STYLES));
+    sname = INT_STYLES[st];
+    VI v = genInt(r, n, st);
+    for (size_t i = 0; i < n; ++i) out[i] = static_cast<T>(is_unsigned<T>::value ? std::abs(v[i]) : v[i]);
+  }
+  return out;
+}
+template<class T> vector<T> genMixedDivisors(vrt::Rng& r, size_t n)
+{
+  vector<T> out(n);
+  for (size_t i = 0; i < n; ++i)
+  {
+    bool neg = !is_unsigned<T>::value && r.chance(0.5);
+    if (is_floating_point<T>::value) { double x = r.logReal(1e-2, 1e2); out[i] = static_cast<T>(neg ? -x : x); }
+    else { long x = static_cast<long>(r.range(1, 9)); out[i] = static_cast<T>(neg ? -x : x); }
+  }
+  return out;
+}
+// scalar classes: integral value / dyadic fraction below one / dyadic value above one with a fractional part
+// (products with small integers are exact in float and double) / arbitrary decimal value; integer scalar types: 1..9
+template<class C> C genMixedScalar(vrt::Rng& r, bool positiveOnly, string& cname)
+{
+  bool neg = !positiveOnly && r.chance(0.5);
+  if (!is_floating_point<C>::value)
+  {
+    cname = "integer";
+    long x = static_cast<long>(r.range(1, 9));
+    return static_cast<C>(neg ? -x : x);
+  }
+  double x;
+  size_t k = r.below(8);
+  if (k < 2) { cname = "integral"; x = static_cast<double>(r.range(1, 9)); }
+  else if (k < 4)
+  {
+    cname = "fraction-below-one";
+    long s = static_cast<long>(r.range(1, 4));
+    long m = 2 * static_cast<long>(r.range(0, (1L << (s - 1)) - 1)) + 1; // odd, < 2^s
+    x = static_cast<double>(m) / static_cast<double>(1L << s);
+  }
+  else if (k < 7)
+  {
+    cname = "fraction-above-one";
+    long s = static_cast<long>(r.range(1, 4));
+    long m = 2 * static_cast<long>(r.range(1L << (s - 1), 40)) + 1;      // odd, > 2^s
+    x = static_cast<double>(m) / static_cast<double>(1L << s);
+  }
+  else
+  {
+    cname = "decimal";
+    x = r.chance(0.5) ? r.pick(VD{ 0.1, 0.3, 0.7, 0.9, 1.1, 2.7, 9.9 }) : r.real(0.0625, 10);
+  }
+  return static_cast<C>(neg ? -x : x);
+}
+// may a value x of the common type be stored as a T with a defined result?
+template<class T, class X> bool fitsElem(X x)
+{
+  if (!is_floating_point<X>::value || is_floating_point<T>::value) return true;
+  LD y = static_cast<LD>(x);
+  return y > static_cast<LD>(numeric_limits<T>::min()) - 1 && y < static_cast<LD>(numeric_limits<T>::max()) + 1;
+}
+
+template<class T, class C> void mixedFor(vrt::Case& c)
+{
+  typedef typename common_type<T, C>::type CT;
+  const string ty = string(MN<T>::n()) + "x" + MN<C>::n();
+  size_t n = drawLen(c.rng);
+  string sname, cname;
+  vector<T> a = genMixedVec<T>(c.rng, n, sname);
+  vector<T> d = genMixedDivisors<T>(c.rng, n);
+  const C k = genMixedScalar<C>(c.rng, is_unsigned<T>::value, cname);
+  const CT kc = static_cast<CT>(k);
+  const T kt = static_cast<T>(k);                       // |k| <= 41: always in range
+  const bool representable = static_cast<LD>(kt) == static_cast<LD>(k);
+  const string cls = ty + (representable ? ":scalar-representable" : ":scalar-not-representable"); // as an element; the finer scalar class is in the coverage key
+  const string in = " v=" + mvs(a) + " d=" + mvs(d) + " c=" + str(k) + " (" + MN<C>::n() + ", " + cname + ")";
+  vrt::describe("mixedscalar:" + ty, ty + in);
+  vrt::cover("mixedscalar:" + ty + ":" + cname + ":" + lenClass(n));
+
+  auto chk = [&](const vector<T>& got, const function<T(size_t)>& ref, const char* clause, const string& op) {
+      bool ok = got.size() == n;
+      size_t bad = 0;
+      for (size_t i = 0; ok && i < n; ++i) if (!sameElem<T>(got[i], ref(i))) { ok = false; bad = i; }
+      vrt::expect(ok, clause, cls + ":" + op, [&] { return op + " on" + in + " => " + mvs(got) + " (first bad index " + str(bad) + (bad < n ? ": expected " + str(ref(bad)) : string()) + ")"; });
+    };
+  auto same = [&](const vector<T>& x, const vector<T>& y, const string& forms) {
+      vrt::expect(sameVec(x, y), "elementwise.mixed-forms", cls + ":" + forms, [&] { return forms + " on" + in + " => " + mvs(x) + " versus " + mvs(y); });
+    };
+
+  // ---- product and quotient: the value of v[i] op c in the common type, stored as an element
+  auto mulRef = [&](size_t i) { return static_cast<T>(static_cast<CT>(a[i]) * kc); };
+  auto divRef = [&](size_t i) { return static_cast<T>(static_cast<CT>(a[i]) / kc); };
+  auto rdivRef = [&](size_t i) { return static_cast<T>(kc / static_cast<CT>(d[i])); };
+  vector<T> vc = a * k, cv = k * a, vdc = a / k, cdv = k / d;
+  vector<T> vmul(a), vdiv(a), vset(a);
+  vmul *= k; vdiv /= k; vset &= k;
+  chk(vc, mulRef, "elementwise.mixed-scalar", "v*c");
+  chk(cv, mulRef, "elementwise.mixed-scalar", "c*v");
+  chk(vdc, divRef, "elementwise.mixed-scalar", "v/c");
+  chk(cdv, rdivRef, "elementwise.mixed-scalar", "c/v");
+  chk(vmul, mulRef, "elementwise.mixed-compound", "v*=c");
+  chk(vdiv, divRef, "elementwise.mixed-compound", "v/=c");
+  chk(vset, [&](size_t) { return kt; }, "elementwise.mixed-compound", "v&=c");
+  same(vc, cv, "v*c=c*v");
+  same(vc, vmul, "v*c=(v*=c)");
+  same(cv, vmul, "c*v=(v*=c)");
+  same(vdc, vdiv, "v/c=(v/=c)");
+
+  // ---- sum and difference
+  // reading A: common type, then stored; reading B: scalar stored as an element first
+  struct SumOp { const char* name; int form; bool minus; bool scalarFirst; };
+  static const SumOp sumOps[] = { { "v+c", 0, false, false }, { "c+v", 0, false, true }, { "v-c", 0, true, false }, { "c-v", 0, true, true },
+                                  { "v+=c", 1, false, false }, { "v-=c", 1, true, false } };
+  for (const SumOp& op : sumOps)
+  {
+    vector<CT> ra(n);
+    vector<T> rb(n);
+    bool fits = true;
+    for (size_t i = 0; i < n; ++i)
+    {
+      CT x = static_cast<CT>(a[i]);
+      ra[i] = !op.minus ? (op.scalarFirst ? kc + x : x + kc) : (op.scalarFirst ? kc - x : x - kc);
+      rb[i] = static_cast<T>(!op.minus ? (op.scalarFirst ? kt + a[i] : a[i] + kt) : (op.scalarFirst ? kt - a[i] : a[i] - kt));
+      if (!fitsElem<T, CT>(ra[i])) fits = false;
+    }
+    if (!fits) { vrt::tally("mixedscalar.sum-out-of-range-not-executed"); continue; }
+    vector<T> got;
+    if (op.form == 1) { got = a; if (op.minus) got -= k; else got += k; }
+    else if (!op.minus) got = op.scalarFirst ? k + a : a + k;
+    else got = op.scalarFirst ? k - a : a - k;
+    bool ok = got.size() == n;
+    size_t bad = 0;
+    for (size_t i = 0; ok && i < n; ++i)
+    {
+      bool okA = sameElem<T>(got[i], static_cast<T>(ra[i])), okB = sameElem<T>(got[i], rb[i]);
+      if (!(representable ? (okA && okB) : (okA || okB))) { ok = false; bad = i; }
+    }
+    vrt::expect(ok, "elementwise.mixed-sum", cls + ":" + op.name,
+                [&] { return string(op.name) + " on" + in + " => " + mvs(got) + " (first bad index " + str(bad) + (bad < n ? ": expected " + str(static_cast<T>(ra[bad])) + (representable ? string() : " or " + str(rb[bad])) : string()) + ")"; });
+  }
+}
+
+void caseMixedScalar(vrt::Case& c)
+{
+  switch (c.index % 16)
+  {
+  case 0: case 1: mixedFor<int, double>(c); break;
+  case 2: case 3: mixedFor<int, float>(c); break;
+  case 4: mixedFor<int, long>(c); break;
+  case 5: case 6: mixedFor<unsigned int, double>(c); break;
+  case 7: mixedFor<unsigned int, float>(c); break;
+  case 8: mixedFor<unsigned int, int>(c); break;
+  case 9: mixedFor<unsigned long, double>(c); break;
+  case 10: mixedFor<long, double>(c); break;
+  case 11: mixedFor<long, int>(c); break;
+  case 12: mixedFor<double, int>(c); break;
+  case 13: mixedFor<double, float>(c); break;
+  case 14: mixedFor<double, long>(c); break;
+  default: mixedFor<float, double>(c);
   }
 }
 
@@ -1624,6 +1825,7 @@ int main(int argc, char** argv)
   vector<vrt::Group> groups = {
     { "edge", nEdge, nEdge, caseEdge, 300, true },
     { "elementwise", 8000, 150000, caseElementwise, 300, false },
+    { "mixedscalar", 8000, 150000, caseMixedScalar, 300, false },
     { "reductions", 24000, 400000, caseReductions, 300, false },
     { "moments", 20000, 300000, caseMoments, 300, false },
     { "entropy", 12000, 200000, caseEntropy, 300, false },
@@ -1639,10 +1841,16 @@ int main(int argc, char** argv)
       "(int: uniform/ties/constant/ascending/descending/wide/nonneg; real: uniform/ties/constant/log-magnitudes/large-offset/integral/ascending/positive; "
       "log space: moderate/naive-overflow/naive-underflow/huge(1e299)/with -inf/all -inf/with +inf/tied maximum/wide/free) on which every function of the family is evaluated "
       "and compared with an exact-integer or long-double reference. A class key = (family, element type, length class, style, relation between the operands "
-      "[set relation, duplicates, dependence, weight kind], direction/termination for seq, over/underflow range for sumExp); all keys involve a real evaluation.";
+      "[set relation, duplicates, dependence, weight kind], direction/termination for seq, over/underflow range for sumExp); all keys involve a real evaluation. "
+      "mixedscalar: one vector and one scalar of a different arithmetic type (13 element x scalar type pairs), key = (type pair, scalar class "
+      "[integral / dyadic fraction below one / above one / decimal / integer type], length class).";
   meta.assumptions = {
     "tolerances: C*n*eps*sum|terms| with C>=4 (second moments: first-order bound including the error of the means, x4); functions of one element 4 ulp",
     "integer products are generated so that they fit in int (signed overflow is outside the statement)",
+    "mixed-type vector/scalar operators (element type != scalar type; int/uint/long/ulong/float/double elements, int/long/float/double scalars): "
+    "* and / in every form (v op c, c op v, v op= c) give the value of v[i] op c in the common arithmetic type stored as an element, and the forms agree; "
+    "+ and -: that value where the scalar is representable in the element type, otherwise either that value or the one obtained by converting the scalar first "
+    "(the library's v+c and v+=c differ there by design); operations whose value does not fit the element type are not executed",
     "documented exception => that exception is required; no documented exception => any value or exception accepted, an abort/sanitizer report is a violation",
     "empty sums (sum, sumProd, sumExp, norm, shannon) must be 0 or a library exception",
     "median of an even number of integers: any value between the two middle elements; vectorUnion: set equality, duplicate-free when the inputs are; "
@@ -1652,7 +1860,7 @@ int main(int argc, char** argv)
     "seq: step > 0; real sequences end k+f steps away with f = 0 or f in [0.1,0.9]",
     "continuous entropy: only H(a x + b) = H(x) + log a for powers of two a on well-spread samples, and the documented exception of miContinuous",
   };
-  meta.requiredClauses = { "elementwise.binary", "elementwise.scalar", "elementwise.compound", "reductions.sum", "reductions.prod", "reductions.cumSum", "reductions.minmax",
+  meta.requiredClauses = { "elementwise.binary", "elementwise.scalar", "elementwise.compound", "elementwise.mixed-scalar", "elementwise.mixed-compound", "elementwise.mixed-forms", "elementwise.mixed-sum", "reductions.sum", "reductions.prod", "reductions.cumSum", "reductions.minmax",
                            "reductions.whichMinMax", "reductions.order", "reductions.median", "reductions.mean", "reductions.wmean", "moments.var", "moments.cov", "moments.cor",
                            "moments.wcov", "entropy.shannon", "entropy.shannonDiscrete", "entropy.miDiscrete", "setlike.unique", "setlike.union", "setlike.intersection",
                            "setlike.diff", "setlike.containsAll", "setlike.count", "seqrep.seq", "seqrep.rep", "logdomain.lse-value", "logdomain.lse-bounds", "logdomain.shift",
